@@ -2,6 +2,7 @@ package drive
 
 import (
 	"context"
+	"encoding/json"
 	"database/sql"
 	"errors"
 	"fmt"
@@ -177,6 +178,9 @@ type engEnv struct {
 	eng                  *check.Engine   // the engine shared by all checks of this environment
 	hung                 bool            // a check did not return: the stream stops after the current case
 	budget               int64           // storage-call budget of the next runs (0: callBudget)
+	noplcase             int
+	inPlaceActive        bool // the configuration points at the in-place file
+	inPlaceStrict        bool
 	ctxB                 context.Context
 }
 
@@ -288,6 +292,7 @@ func (e *engEnv) prepare(c *EngCase, o *Out) error {
 		}
 	}
 	viaOPL := false
+	inPlace := false
 	if !legacy {
 		text := renderOPL(c.NSs)
 		parsed, errs := schema.Parse(text)
@@ -300,7 +305,21 @@ func (e *engEnv) prepare(c *EngCase, o *Out) error {
 				nss[i] = &n
 			}
 			c.NSs = nss
-			if c.Strict {
+			// every other accepted document is loaded by changing ONE watched file in place (the
+			// namespace manager object stays, its content is replaced by the watcher), the others
+			// through a new location (a new manager)
+			e.noplcase++
+			if e.noplcase%2 == 0 {
+				ok, err := e.loadInPlace(text, c.Strict, parsed)
+				if err != nil {
+					return err
+				}
+				inPlace = ok
+				if ok && o != nil {
+					o.Count("cfg:opl-in-place")
+				}
+			}
+			if c.Strict && !inPlace {
 				e.nfile++
 				f := filepath.Join(e.tmpDir, fmt.Sprintf("ns%d.ts", e.nfile))
 				if err := os.WriteFile(f, []byte(text), 0o644); err != nil {
@@ -310,12 +329,16 @@ func (e *engEnv) prepare(c *EngCase, o *Out) error {
 					"location": "file://" + f, "experimental_strict_mode": true}); err != nil {
 					return err
 				}
+				e.inPlaceActive = false
 			}
 		} else if o != nil {
 			o.Count("cfg:opl-rejected")
 		}
 	}
-	if !viaOPL || !c.Strict {
+	if inPlace {
+		// loaded
+	} else if !viaOPL || !c.Strict {
+		e.inPlaceActive = false
 		c.Strict = false
 		if err := e.reg.Config(e.ctx).Set(config.KeyNamespaces, c.NSs); err != nil {
 			return err
@@ -528,6 +551,54 @@ func (e *engEnv) poisonedRuns(c *EngCase, r interface{ Intn(int) int }) string {
 		return ""
 	}
 	return "\tx_base=" + base + "\tx_poison=" + strings.Join(out, ",")
+}
+
+// loadInPlace replaces the content of the environment's one watched OPL file and waits until the
+// namespace manager serves it. false = not loaded this way (the caller falls back).
+func (e *engEnv) loadInPlace(text string, strict bool, parsed []namespace.Namespace) (bool, error) {
+	f := filepath.Join(e.tmpDir, "inplace.ts")
+	tmp := filepath.Join(e.tmpDir, ".inplace.tmp")
+	if err := os.WriteFile(tmp, []byte(text), 0o644); err != nil {
+		return false, err
+	}
+	if err := os.Rename(tmp, f); err != nil {
+		return false, err
+	}
+	if !e.inPlaceActive || e.inPlaceStrict != strict {
+		if err := e.reg.Config(e.ctx).Set(config.KeyNamespaces, map[string]any{
+			"location": "file://" + f, "experimental_strict_mode": strict}); err != nil {
+			return false, err
+		}
+		e.inPlaceActive, e.inPlaceStrict = true, strict
+	}
+	want := map[string]string{}
+	for i := range parsed {
+		b, _ := json.Marshal(parsed[i].Relations)
+		want[parsed[i].Name] = string(b)
+	}
+	deadline := time.Now().Add(3 * time.Second)
+	for time.Now().Before(deadline) {
+		nm, err := e.reg.Config(e.ctx).NamespaceManager()
+		if err != nil {
+			return false, err
+		}
+		nn, err := nm.Namespaces(e.ctx)
+		if err == nil && len(nn) == len(want) {
+			same := true
+			for _, n := range nn {
+				b, _ := json.Marshal(n.Relations)
+				if w, ok := want[n.Name]; !ok || w != string(b) {
+					same = false
+				}
+			}
+			if same {
+				return true, nil
+			}
+		}
+		time.Sleep(3 * time.Millisecond)
+	}
+	e.inPlaceActive = false
+	return false, nil
 }
 
 // runFresh runs the check on an engine of its own (a freshly started server), with the
